@@ -101,11 +101,12 @@ def r18_1(ctx):
     n1, v1, n2, v2 = (smf.sym(x, 127) for x in ('n1', 'v1', 'n2', 'v2'))
     m1b = [0x93, n1, v1]
     m2b = [0x85, n2, v2]
+    sxb = [0xf0, n2, v2, 0xf7]      # the second message may also be a sysex cut anywhere, F0 alone included
     inp = ctx.p.cls(pm.PORTS, 'BaseInput')
     n = 0
-    for k in range(0, 4):
+    for second, k in [(m2b, k) for k in range(0, 4)] + [(sxb, k) for k in range(1, 5)]:
         for gaps in ((), (1,), (0, 2, 4)):
-            stream = m1b + m2b[:k]
+            stream = m1b + second[:k]
             for g in sorted(gaps, reverse=True):
                 if g <= len(stream):
                     stream = stream[:g] + [GAP] + stream[g:]
@@ -118,8 +119,9 @@ def r18_1(ctx):
                 return pm.call(ai, ctx, port, '__iter__')
             outs = ai.explore(thunk)
             n += 1
-            inst = f'iterate(note_on + {k} bytes, gaps at {list(gaps)})'
-            cons = f'{rc.qname}::cut({k})'
+            kind2 = 'note_off' if second is m2b else 'sysex'
+            inst = f'iterate(note_on + {k} bytes{" of a sysex" if second is sxb else ""}, gaps at {list(gaps)})'
+            cons = f'{rc.qname}::cut({k}{", sysex" if second is sxb else ""})'
             oc = c11.one(ctx, 'R18.1', inst, w, outs, cons)
             if oc is None:
                 continue
@@ -128,14 +130,19 @@ def r18_1(ctx):
                          f'(line {getattr(oc.node, "lineno", "?")})', construct=cons + '::raises')
                 continue
             items = oc.value.items if isinstance(oc.value, AList) else None
-            want = 1 + (1 if k == 3 else 0)
+            want = 1 + (1 if k == len(second) else 0)
             ok = items is not None and len(items) == want and all(isinstance(x, AObj) for x in items)
             if ok:
                 a = items[0].attrs
                 ok = a.get('type') == 'note_on' and a.get('channel') == 3 and wire.value_equal(a.get('note'), n1) and wire.value_equal(a.get('velocity'), v1)
                 if want == 2:
                     b = items[1].attrs
-                    ok = ok and b.get('type') == 'note_off' and b.get('channel') == 5 and wire.value_equal(b.get('note'), n2)
+                    if kind2 == 'note_off':
+                        ok = ok and b.get('type') == 'note_off' and b.get('channel') == 5 and wire.value_equal(b.get('note'), n2)
+                    else:
+                        d = b.get('data')
+                        ok = ok and b.get('type') == 'sysex' and isinstance(d, AList) and len(d.items) == 2 and wire.value_equal(d.items[0], n2) \
+                            and wire.value_equal(d.items[1], v2)
             ctx.require(ok, 'R18.1', inst, w, f'yields {items!r}; exactly the {want} complete message(s) must come out', construct=cons + '::messages')
             port, conn = holder['port'], holder['conn']
             ctx.require(port.attrs.get('closed') is True, 'R18.2', f'{inst}.closed', w, 'the port does not report itself closed after the peer disconnected',
@@ -148,7 +155,7 @@ def r18_1(ctx):
                         construct='mido/sockets.py::_is_readable::timeout')
             ctx.require(not any(e[0] == 'blocking-read' for e in oc.log), 'R18.1', f'{inst}.guarded-read', w,
                         'a read(1) is issued without a preceding positive readability poll (it may block forever)', construct=cons + '::unguarded-read')
-    ctx.floor('R18.1', n, 12)
+    ctx.floor('R18.1', n, 24)
     # non-blocking receive on a connection with nothing to read never sleeps / reads
     holder = {}
 
